@@ -16,6 +16,10 @@ type compiledRe struct {
 	// unanchored literal alternatives => str.contains disjunction
 	literals []string
 	smt      string // full-match RegLan (with re.all padding where unanchored)
+	heavy    bool
+	// \A[class]{min,max}\z patterns can be decided from alphabet and length facts
+	classRep         *[256]bool
+	repMin, repMax   int
 	err      string
 }
 
@@ -29,8 +33,8 @@ func compileRe(pattern string) *compiledRe {
 	if err != nil {
 		c.err = err.Error()
 	} else {
-		re = re.Simplify()
 		c.build(re)
+		c.heavy = strings.Count(c.smt, "re.loop") > 0 || len(c.smt) > 400
 	}
 	reCache.Store(pattern, c)
 	return c
@@ -56,6 +60,19 @@ func (c *compiledRe) build(re *syntax.Regexp) {
 	if len(subs) > 0 && (subs[len(subs)-1].Op == syntax.OpEndText) {
 		endAnch = true
 		subs = subs[:len(subs)-1]
+	}
+	if startAnch && endAnch && len(subs) == 1 {
+		r := subs[0]
+		if r.Op == syntax.OpRepeat && r.Sub[0].Op == syntax.OpCharClass {
+			var set [256]bool
+			cc := r.Sub[0]
+			for k := 0; k < len(cc.Rune); k += 2 {
+				for b := cc.Rune[k]; b <= cc.Rune[k+1] && b < 256; b++ {
+					set[b] = true
+				}
+			}
+			c.classRep, c.repMin, c.repMax = &set, r.Min, r.Max
+		}
 	}
 	var parts []string
 	if !startAnch {
@@ -249,7 +266,25 @@ func (i *interpreter) regexMatch(pattern string, s value) value {
 	if c.err != "" {
 		unsup("regexp %q: %s", pattern, c.err)
 	}
-	return mkInRe(s, c.smt)
+	if c.classRep != nil {
+		if ss, ok := s.(*Sym); ok {
+			if a, ok := i.path.alpha[ss.e]; ok {
+				sub := true
+				for b := 0; b < 256; b++ {
+					if a[b] && !c.classRep[b] {
+						sub = false
+					}
+				}
+				lo, hi := i.path.ivOf(i.path.mkLen(ss))
+				if sub && lo != nil && hi != nil && lo.IsInt64() && hi.IsInt64() && int(lo.Int64()) >= c.repMin && (c.repMax < 0 || int(hi.Int64()) <= c.repMax) {
+					return true
+				}
+			}
+		}
+	}
+	r := mkInRe(s, c.smt).(*Sym)
+	r.heavy = c.heavy
+	return r
 }
 
 func init() {
